@@ -143,20 +143,126 @@ def harness_gomod():
     return os.path.join(d, "go.mod")
 
 
-def go_build(names, race=False):
+# Coverage tie: harness commands are built with Go's coverage instrumentation of the repository's packages
+# (`go build -cover -coverpkg=<massnet.org/mass-wallet packages the command links>`), every process a check
+# starts writes its counters to $GOCOVERDIR (set by Check), and Check.finish reports which statements of the
+# property's anchor files / modelled functions the correspondence run actually executed (evidence key
+# impl_coverage).  VERIF_COVER=0 switches it off.  It never decides a verdict.
+COVER = os.environ.get("VERIF_COVER", "1") != "0"
+REPO_MODULE = "massnet.org/mass-wallet"
+
+
+def go_build(names, race=False, cover=None):
     """Build harness commands from /repo's current working tree with the verif tag."""
+    if cover is None:
+        cover = COVER and not race
     with Lock("go"):
         modfile = harness_gomod()
         os.makedirs(BIN, exist_ok=True)
         outs = []
         for n in names:
             out = os.path.join(BIN, n + ("-race" if race else ""))
-            cmd = ["go", "build", "-modfile=" + modfile, "-tags", "verif"] + (["-race"] if race else []) + ["-o", out, "./cmd/" + n]
+            extra = ["-race"] if race else []
+            if cover:
+                rc, o, e = sh(["go", "list", "-modfile=" + modfile, "-tags", "verif", "-deps", "./cmd/" + n], timeout=300, cwd=HARNESS)
+                pk = [l for l in o.split() if l == REPO_MODULE or l.startswith(REPO_MODULE + "/")]
+                if rc == 0 and pk:
+                    # the main package must be instrumented too, otherwise no counters are written at exit
+                    extra += ["-cover", "-coverpkg=" + ",".join(pk + ["verifharness/cmd/" + n])]
+            cmd = ["go", "build", "-modfile=" + modfile, "-tags", "verif"] + extra + ["-o", out, "./cmd/" + n]
             rc, o, e = sh(cmd, timeout=1500, cwd=HARNESS)
             if rc != 0:
                 return None, (o + e)
             outs.append(out)
         return outs, ""
+
+
+def _load_modelled():
+    p = os.path.join(ROOT, "corpus", "modelled_functions.json")
+    try:
+        with open(p) as f:
+            return json.load(f)
+    except Exception:
+        return {}
+
+
+def impl_coverage(pid, covdir):
+    """Statement coverage of the repository code reached by this run's harness processes.
+    Returns a dict for the evidence file, or {"unavailable": reason}."""
+    try:
+        if not os.path.isdir(covdir) or not any(n.startswith("covmeta") for n in os.listdir(covdir)):
+            return {"unavailable": "no coverage counters written (harness not run, or built without -cover)"}
+        prof = os.path.join(covdir, "profile.txt")
+        rc, o, e = sh(["go", "tool", "covdata", "textfmt", "-i=" + covdir, "-o=" + prof], timeout=600)
+        if rc != 0:
+            return {"unavailable": "go tool covdata textfmt: " + (e or o)[-300:]}
+        rc, fo, e = sh(["go", "tool", "covdata", "func", "-i=" + covdir], timeout=600)
+        if rc != 0:
+            return {"unavailable": "go tool covdata func: " + (e or fo)[-300:]}
+        # function start lines per file
+        starts = {}
+        for l in fo.splitlines():
+            m = re.match(r"(\S+?):(\d+):\s+(\S+)\s+([0-9.]+)%", l)
+            if not m or not m.group(1).startswith(REPO_MODULE + "/"):
+                continue
+            f = m.group(1)[len(REPO_MODULE) + 1:]
+            starts.setdefault(f, []).append((int(m.group(2)), m.group(3).split(".")[-1]))
+        for f in starts:
+            starts[f].sort()
+        blocks = {}   # (file, func) -> [total stmts, covered stmts, [uncovered ranges]]
+        with open(prof) as fh:
+            for l in fh:
+                m = re.match(r"(\S+?):(\d+)\.\d+,(\d+)\.\d+ (\d+) (\d+)", l)
+                if not m or not m.group(1).startswith(REPO_MODULE + "/"):
+                    continue
+                f = m.group(1)[len(REPO_MODULE) + 1:]
+                a, b, n, c = int(m.group(2)), int(m.group(3)), int(m.group(4)), int(m.group(5))
+                fn = "?"
+                for ln, name in starts.get(f, []):
+                    if ln <= a:
+                        fn = name
+                    else:
+                        break
+                t = blocks.setdefault((f, fn), [0, 0, []])
+                t[0] += n
+                if c > 0:
+                    t[1] += n
+                else:
+                    t[2].append("%d-%d" % (a, b))
+        spec = _load_modelled().get(pid, {})
+        files = spec.get("anchor_files", [])
+        funcs = spec.get("modelled", [])      # "file.go:Func"
+        res = {"tool": "go build -cover -coverpkg=<repository packages>; go tool covdata (statement blocks, mode set)"}
+        per_file = {}
+        for (f, fn), (tot, cov, unc) in blocks.items():
+            if f in files and not f.endswith("_verif.go"):
+                t = per_file.setdefault(f, [0, 0])
+                t[0] += tot
+                t[1] += cov
+        res["anchor_files"] = {f: {"statements": t[0], "covered": t[1]} for f, t in sorted(per_file.items())}
+        tot = sum(t[0] for t in per_file.values())
+        cov = sum(t[1] for t in per_file.values())
+        res["anchor_files_statements"] = tot
+        res["anchor_files_covered"] = cov
+        mf = {}
+        missing = []
+        for spec_f in funcs:
+            f, fn = spec_f.rsplit(":", 1)
+            t = blocks.get((f, fn))
+            if t is None:
+                if f in starts:
+                    missing.append(spec_f)       # file linked but function not found (renamed / removed)
+                continue
+            mf[spec_f] = {"statements": t[0], "covered": t[1], "uncovered_lines": t[2][:12]}
+        res["modelled_functions"] = mf
+        res["modelled_functions_statements"] = sum(v["statements"] for v in mf.values())
+        res["modelled_functions_covered"] = sum(v["covered"] for v in mf.values())
+        res["modelled_functions_never_reached"] = sorted(k for k, v in mf.items() if v["covered"] == 0)
+        if missing:
+            res["modelled_functions_not_found_in_source"] = missing
+        return res
+    except Exception as ex:  # never let the coverage report decide a verdict
+        return {"unavailable": "exception: %r" % (ex,)}
 
 
 # ----------------------------------------------------------------------------- translators
@@ -414,6 +520,11 @@ class Check:
         self.workdir = os.path.join(BUILD, "work", "%s-%s-%d" % (pid, tier, os.getpid()))
         shutil.rmtree(self.workdir, ignore_errors=True)
         os.makedirs(self.workdir)
+        # coverage counters of every harness process this check starts (see impl_coverage)
+        self.covdir = os.path.join(self.workdir, "cov")
+        os.makedirs(self.covdir)
+        if COVER:
+            os.environ["GOCOVERDIR"] = self.covdir
 
     def log(self, *a):
         print("[%s %s %6.1fs]" % (self.pid, self.tier, time.time() - self.t0), *a, flush=True)
@@ -501,6 +612,16 @@ class Check:
             print("VIOLATION property=%s replay=%s no-failing-input-found" % (self.pid, replay_path))
         cov = dict(self.coverage)
         cov.setdefault("trusted_base", trusted_base)
+        if COVER:
+            cov["impl_coverage"] = impl_coverage(self.pid, self.covdir)
+            try:   # keep the merged counters of the last run per property and tier for bin/cover-report
+                keep = os.path.join(BUILD, "cov", "%s-%s" % (self.pid, self.tier))
+                shutil.rmtree(keep, ignore_errors=True)
+                if "unavailable" not in cov["impl_coverage"]:
+                    os.makedirs(keep)
+                    sh(["go", "tool", "covdata", "merge", "-i=" + self.covdir, "-o=" + keep], timeout=600)
+            except Exception:
+                pass
         if explanation:
             cov["explanation"] = explanation
         cov["known_findings_reconfirmed"] = sorted(self.known_hits.keys())
